@@ -520,7 +520,8 @@ _DIGITS = ("index computed from ParsePart.digit_count / Digit.index, which forma
            "digit tokens of the same part (index < digit_count); that cross-module relation is not derived here. Triage: "
            "3,000,000 random format codes x 26 values x 6 locales through format_number raised no panic")
 _PF = ("parsed_formulas has one entry per worksheet (pushed/removed together with workbook.worksheets); the sheet index was "
-       "validated against workbook.worksheets a few lines earlier; the equality of the two lengths is not derived here")
+       "validated against workbook.worksheets a few lines earlier; the equality of the two lengths is backed structurally by rule "
+       "LEN-PAIR (every resize of worksheets reaches a rebuild of parsed_formulas; parse_formulas pushes once per worksheet)")
 C25_ENTRIES = ["import::load_from_xlsx_bytes", "import::load_from_xlsx", "import::load_from_icalc", "model::Model::from_workbook", "model::Model::from_bytes"]
 C25_STOPS = ["model::Model::evaluate", "model::Model::evaluate_cell", "model::Model::evaluate_node_in_context", "model::Model::evaluate_conditional_formatting"]
 _ESC = ("byte offsets delimited by ASCII bytes just tested (`_`, `x` before, `_` after) or advanced by 7 ASCII bytes / "
@@ -757,3 +758,73 @@ def range_expansion_capped(ck, F, rule="LOOP-BOUND"):
                   "%s expands a range taken from the file into one entry per cell with no cap on the number of cells: a `ref` spanning the whole "
                   "sheet makes the import run (and allocate) without practical bound" % qn, f, l, sample={"fn": qn})
     ck.note("range_expansion_loops", n)
+
+
+def len_pair(ck, F, rule="LEN-PAIR"):
+    """Backs the ASSUMED sites that index Model.parsed_formulas with a sheet index validated against
+    Workbook.worksheets: the two vectors have the same length because (a) every function that resizes
+    `workbook.worksheets` (push / insert / remove) reaches a rebuild of the parsed structures
+    (reset_parsed_structures / parse_formulas) on every path from the resize to a normal return, and (b) parse_formulas
+    starts from an empty vector and pushes exactly once per iteration of its loop over the worksheets."""
+    P = Program(F)
+    WB = ("ironcalc_base::types::Workbook", "worksheets")
+    rebuild = set(F.find("Model::reset_parsed_structures")) | set(F.find("Model::parse_formulas"))
+    ck.ob(rule, "anchors", bool(rebuild), "reset_parsed_structures / parse_formulas not found")
+    n = 0
+    for path in sorted(F.body_paths()):
+        h = F.heads[path]
+        if h["crate"] != "ironcalc_base" or "/test" in h["file"]:
+            continue
+        raw = F._raw.get(path, "")
+        if '"worksheets"' not in raw:
+            continue
+        b = F.body(path)
+        resizes = []
+        for bi, t in b.calls():
+            last = (b.callee_q(t) or "").rsplit("::", 1)[-1]
+            if last not in ("push", "insert", "remove", "swap_remove", "pop", "truncate", "clear", "drain", "retain") or not t["args"]:
+                continue
+            if "vec::Vec" not in (b.callee_q(t) or ""):
+                continue
+            rt = b.ref_target(t["args"][0])
+            if rt is None:
+                continue
+            fs = [e for e in place_proj(rt) if e[0] == "f"]
+            if fs and (fs[-1][3], fs[-1][2]) == WB and place_proj(rt)[-1] is fs[-1]:
+                resizes.append((bi, last))
+        for bi, last in resizes:
+            n += 1
+            rebuilds = {cb for cb, ct in b.calls() if b.callee(ct) in F.heads and (b.callee(ct) in rebuild or P.reaches(b.callee(ct), rebuild))}
+            # a return reachable from the resize without passing a rebuild?
+            seen, st, leak = set(), list(b.succs(bi)), None
+            rets = set(b.return_blocks())
+            while st:
+                x = st.pop()
+                if x in seen or x in rebuilds:
+                    continue
+                seen.add(x)
+                if x in rets:
+                    leak = x
+                    break
+                st.extend(b.succs(x))
+            f, l = b.loc(bi)
+            qn = b.qname.split("::", 1)[-1]
+            ck.ob(rule, "%s|%s worksheets -> rebuild" % (qn, last), leak is None,
+                  "%s changes the number of worksheets (%s) and can return without rebuilding parsed_formulas: the two vectors get "
+                  "different lengths and `parsed_formulas[sheet]` panics for a valid sheet" % (qn, last), f, l, sample={"fn": qn, "op": last})
+    # (b) shape of parse_formulas
+    for p in sorted(F.find("Model::parse_formulas")):
+        b = F.body(p)
+        PF = ("ironcalc_base::model::Model", "parsed_formulas")
+        pushes = []
+        for bi, t in b.calls():
+            if (b.callee_q(t) or "").endswith("Vec::push") and t["args"]:
+                rt = b.ref_target(t["args"][0])
+                fs = [e for e in place_proj(rt) if e[0] == "f"] if rt is not None else []
+                if fs and (fs[-1][3], fs[-1][2]) == PF and place_proj(rt)[-1] is fs[-1]:
+                    pushes.append(bi)
+        from mir import loop_header_of
+        heads = {loop_header_of(b, x) for x in pushes}
+        ck.ob(rule, "parse_formulas|one push per worksheet", len(pushes) == 1 and None not in heads,
+              "parse_formulas: expected exactly one push onto parsed_formulas, inside the loop over the worksheets (found %d)" % len(pushes), b.file, b.line)
+    ck.ob(rule, "resize-sites", n >= 3, "expected at least 3 resizes of workbook.worksheets, found %d" % n)
